@@ -1,4 +1,10 @@
-(* C16  Out-of-band files.  Definitions only (lemmas: Sys/FilesProofs.v).
+(* C16  Out-of-band files.  Definitions only (lemmas: Sys/FilesGateProofs.v, Sys/FilesStoreProofs.v).
+
+   The model follows /repo AFTER the fix commits c986697 (largeFileReceive: a failed
+   FinishUpload is answered 500 and the bytes are removed) and 560b667 (fs Download: only
+   records in status 'completed' are served).  The code as it was before them is kept as
+   [upload_body_unrepaired] / [upload_gate_unrepaired] / [download_unrepaired] and refuted in
+   Props/PropC16.v.
 
    (a) the request gate of largeFileServe / largeFileReceive (server/hdl_files.go)
        in the code's order, above getAPIKey / getHttpAuth / authHttpRequest
@@ -66,7 +72,8 @@ Inductive hdr_outcome := HdrErr (status : Z) | HdrStatus (status : Z).
 Inductive effect :=
 | ENone       (* no store call, no file written, no bytes served *)
 | EStored     (* record created and completed, bytes written *)
-| EResidue    (* record left in status 'started' with its bytes *)
+| EResidue    (* record left in status 'started' WITH its bytes (unrepaired handler only) *)
+| EResidueNoBytes  (* record left in status 'started', its bytes removed: a failed upload *)
 | EServed.    (* the bytes of an upload record sent *)
 
 Inductive outcome :=
@@ -178,7 +185,8 @@ Definition u_newacc (r : ureq) : bool :=
   | None => match vis r (u_topic_form r) with Some b => b | None => false end
   end.
 
-Definition upload_body (r : ureq) : outcome :=
+(* [finish_failed]: what the handler does when store.Files.FinishUpload(ok) fails *)
+Definition upload_body_with (finish_failed : outcome) (r : ureq) : outcome :=
   match u_body r with
   | BNone => Reply 400 ENone
   | BForm total has_file file_len =>
@@ -189,11 +197,18 @@ Definition upload_body (r : ureq) : outcome :=
          | FNone => Reply 200 EStored
          | FCreate => Reply 500 ENone
          | FStart => Reply 500 ENone
-         | FFinish => Crash EResidue                       (* fdef.Location on the nil fdef *)
+         | FFinish => finish_failed
          end
   end.
 
-Definition upload_gate (r : ureq) : outcome :=
+(* hdl_files.go:326-334 (c986697): mh.Delete([fdef.Location]), reply decodeStoreError = 500;
+   the record stays in status 'started' (the store is failing) *)
+Definition upload_body : ureq -> outcome := upload_body_with (Reply 500 EResidueNoBytes).
+
+(* before c986697: fdef was overwritten with the nil result, fdef.Location panicked *)
+Definition upload_body_unrepaired : ureq -> outcome := upload_body_with (Crash EResidue).
+
+Definition upload_gate_with (body : ureq -> outcome) (r : ureq) : outcome :=
   match u_meth r with
   | MOptions => preflight (u_handler r) (u_hdr r)
   | MPost | MPut | MHead =>
@@ -211,12 +226,15 @@ Definition upload_gate (r : ureq) : outcome :=
                if negb (c =? 0)%Z then Reply c ENone
                else match u_meth r with
                     | MHead => Reply 200 ENone
-                    | _ => upload_body r
+                    | _ => body r
                     end
              end
       end
   | _ => Reply 405 ENone
   end.
+
+Definition upload_gate : ureq -> outcome := upload_gate_with upload_body.
+Definition upload_gate_unrepaired : ureq -> outcome := upload_gate_with upload_body_unrepaired.
 
 (* ------------------------------------------------------------------ *)
 (* (b) disposition                                                      *)
@@ -296,7 +314,9 @@ Inductive op :=
 | ODelMsgs (mids : list N)                     (* hard deletion of messages *)
 | ODelTopic (t : N)
 | ODelUser (u : N)
-| OGC (older : option Z) (limit : Z).          (* Files.DeleteUnused(olderThan, limit) *)
+| OGC (older : option Z) (limit : Z)           (* Files.DeleteUnused(olderThan, limit) *)
+| ODropBytes (fid : N).                        (* mh.Delete([location]) after a failed FinishUpload(ok):
+                                                  the bytes go, the record stays 'started' *)
 
 Definition file_ids (s : state) : list N := map f_id (files s).
 
@@ -367,9 +387,11 @@ Definition step (s : state) (o : op) : state :=
     | Some f =>
       if f_done f then s                                   (* one FinishUpload per StartUpload *)
       else if ok then
-        set_files s (map (fun g => if (f_id g =? fid)%N
-                                   then {| f_id := fid; f_done := true; f_upd := now; f_mime := f_mime g |}
-                                   else g) (files s))
+        if memN fid (disk s) then                          (* called only right after the bytes were written *)
+          set_files s (map (fun g => if (f_id g =? fid)%N
+                                     then {| f_id := fid; f_done := true; f_upd := now; f_mime := f_mime g |}
+                                     else g) (files s))
+        else s
       else
         {| files := filter (fun g => negb (f_id g =? fid)%N) (files s);
            links := filter (fun l => negb (fst l =? fid)%N) (links s);   (* ON DELETE CASCADE *)
@@ -427,6 +449,10 @@ Definition step (s : state) (o : op) : state :=
        users := users s;
        disk := filter (fun d => negb (memN d rem)) (disk s);   (* media handler Delete(locations) *)
        att := att s |}
+  | ODropBytes fid =>
+    if is_done fid (files s) then s       (* the handler removes only the upload it could not complete *)
+    else {| files := files s; links := links s; msgs := msgs s; next_mid := next_mid s; topics := topics s;
+            users := users s; disk := filter (fun d => negb (d =? fid)%N) (disk s); att := att s |}
   end.
 
 Definition run (h : list op) : state := fold_left step h init.
@@ -435,23 +461,45 @@ Definition run (h : list op) : state := fold_left step h init.
 Definition gc_deleted_locations (s : state) (older : option Z) (limit : Z) : list N :=
   map f_id (gc_removed s older limit).
 
-(* fs Download(url): id from the URL, record by id, bytes by the record's location *)
-Definition download (s : state) (serve url : list N) : option file :=
+(* fs Download(url): id from the URL, record by id, status test (filesys.go:119, 560b667),
+   bytes by the record's location *)
+Definition download_with (check_status : bool) (s : state) (serve url : list N) : option file :=
   let id := get_id_from_url serve url in
   if (id =? 0)%N then None
   else match find_file id (files s) with
-       | Some f => if memN id (disk s) then Some f else None
+       | Some f => if (negb check_status || f_done f) && memN id (disk s) then Some f else None
        | None => None
        end.
 
+Definition download : state -> list N -> list N -> option file := download_with true.
+
+(* before 560b667: no status test *)
+Definition download_unrepaired : state -> list N -> list N -> option file := download_with false.
+
+(* the whole download request against the store slice: [s_found] of the gate is what Download
+   finds for the URL; the second component is the record whose bytes are sent *)
+Definition serve_request (s : state) (r : sreq) (serve url : list N) : outcome * option file :=
+  let d := download s serve url in
+  let o := serve_gate {| s_meth := s_meth r; s_keys := s_keys r; s_creds := s_creds r; s_sid := s_sid r;
+                         s_handler := s_handler r; s_hdr := s_hdr r;
+                         s_found := match d with Some _ => true | None => false end |} in
+  (o, match effect_of o with EServed => d | _ => None end).
+
+(* the effect of an upload request on the store slice *)
+Definition apply_effect (s : state) (e : effect) (fid : N) (now : Z) (mime : list N) : state :=
+  match e with
+  | EStored => step (step s (OStart fid now mime)) (OFinish fid true now)
+  | EResidue => step s (OStart fid now mime)
+  | EResidueNoBytes => step (step s (OStart fid now mime)) (ODropBytes fid)
+  | _ => s
+  end.
+
 (* the whole upload request against the store slice *)
 Definition apply_upload (s : state) (r : ureq) (fid : N) (now : Z) (mime : list N) : state * outcome :=
-  let o := upload_gate r in
-  match effect_of o with
-  | EStored => (step (step s (OStart fid now mime)) (OFinish fid true now), o)
-  | EResidue => (step s (OStart fid now mime), o)
-  | _ => (s, o)
-  end.
+  let o := upload_gate r in (apply_effect s (effect_of o) fid now mime, o).
+
+Definition apply_upload_unrepaired (s : state) (r : ureq) (fid : N) (now : Z) (mime : list N) : state * outcome :=
+  let o := upload_gate_unrepaired r in (apply_effect s (effect_of o) fid now mime, o).
 
 (* ------------------------------------------------------------------ *)
 (* vocabulary of the history theorems (Props/PropC16.v)                 *)
